@@ -1,4 +1,5 @@
 import BiotiteModel.Model.C05Ext
+import BiotiteModel.Model.C05Ser
 /-! Line-protocol driver for C05: one output line per input line. -/
 namespace BiotiteModel.Driver.C05
 open BiotiteModel BiotiteModel.C05 BiotiteModel.Proto
@@ -114,6 +115,16 @@ def step (_ : Unit) (line : String) : Unit × String :=
         | .ok idx => "ok " ++ showNatsE idx
         | .error e => "ERR:" ++ e.toString
       | _, _ => "bad-op"
+    | ["camel", n] =>
+      match parseStr n with
+      | some n => match snakeToCamel n.toList with
+        | some r => "ok " ++ showStr (String.ofList r)
+        | none => "ERR:IndexError"
+      | none => "bad-op"
+    | ["snake", n] =>
+      match parseStr n with
+      | some n => "ok " ++ showStr (String.ofList (camelToSnake n.toList))
+      | none => "bad-op"
     | ["string_dec", tbl, idx] =>
       match parseStrs tbl, parseNats idx with
       | some tbl, some idx =>
